@@ -14,11 +14,11 @@ def gen(tier, rnd):
     cases = []
     cid = [0]
 
-    def case(cidn, ckey, table, hint='srv', acc=1, nq=2, inj=0, rel=0, idcb=1, drop=(), sni='', warm='', snik=(), dup=(), mute=0, sclose=0, obs=0, tk2=0, nonq=0):
+    def case(cidn, ckey, table, hint='srv', acc=1, nq=2, inj=0, rel=0, idcb=1, drop=(), sni='', warm='', snik=(), dup=(), mute=0, sclose=0, obs=0, tk2=0, nonq=0, shold=0):
         cid[0] += 1
-        cases.append((cid[0], ['X id=%d cid=%s ckey=%s sk=%s hint=%s acc=%d nq=%d inj=%d rel=%d idcb=%d drop=%s sni=%s warm=%s snik=%s dup=%s mute=%d sclose=%d obs=%d tk2=%d nonq=%d'
+        cases.append((cid[0], ['X id=%d cid=%s ckey=%s sk=%s hint=%s acc=%d nq=%d inj=%d rel=%d idcb=%d drop=%s sni=%s warm=%s snik=%s dup=%s mute=%d sclose=%d obs=%d tk2=%d nonq=%d shold=%d'
                                % (cid[0], cidn, ckey, ','.join('%s:%s' % kv for kv in table), hint, acc, nq, inj, rel, idcb, ','.join(map(str, drop)),
-                                  sni, warm, ','.join('%s:%s' % kv for kv in snik), ','.join(map(str, dup)), mute, sclose, obs, tk2, nonq), 'E']))
+                                  sni, warm, ','.join('%s:%s' % kv for kv in snik), ','.join(map(str, dup)), mute, sclose, obs, tk2, nonq, shold), 'E']))
     K = 'secretkey0123456'
     keys = [K, K[:-1], K + 'x', K[:8], 'S' + K[1:], K.upper(), 'a', K * 2]
     # equal / different length / prefix / extension / one character off
@@ -83,6 +83,12 @@ def gen(tier, rnd):
         case('alice', K, [('alice', K)], nq=2, inj=inj)
         case('alice', 'wrongkey', [('alice', K)], nq=2, inj=inj)
         case('alice', K, [('alice', K)], nq=0, inj=inj)
+    # ... and from the client's address after the client has closed its session, which the server application still references (or not)
+    for shold in (1, 0):
+        for rel in (2000, 100000):
+            for nq in (1, 2):
+                case('alice', K, [('alice', K)], nq=nq, inj=3, rel=rel, shold=shold)
+                case('alice', K, [('alice', K)], nq=nq, inj=3, rel=rel, shold=shold, idcb=0)
     # duplication during and after the handshake: nothing is lost, so everything queued is still delivered exactly once, in order; a duplicate record is
     # discarded by the DTLS layer and must not cost the session
     for i in range(16):
